@@ -434,6 +434,29 @@ class Lib:
         e = self.e
         if base.t[0] == "conclist" and idx.conc is not None:
             return [(st, base.z[idx.conc])]
+        if base.t[0] == "modattr" and idx.conc is not None:
+            # module-level dict literal whose values are constructor calls with constant arguments (e.g. supported_types)
+            mn, an = base.conc.rsplit(".", 1)
+            m = e.src.modules.get(mn)
+            node0 = m.assigns.get(an) if m else None
+            if isinstance(node0, ast.Dict):
+                for kx, vx in zip(node0.keys, node0.values):
+                    if isinstance(kx, ast.Constant) and kx.value == idx.conc and isinstance(vx, ast.Call) and isinstance(vx.func, ast.Name):
+                        cname = vx.func.id
+                        r = z3.Const(f"const_{an}_{str(idx.conc).replace(' ', '_')}", e.S.Ref)
+                        obj = Val(ref(cname), r)
+                        st.assume(r != e.S.null)
+                        st.assume(e.dtype_fn(r) == e.class_id(cname))
+                        if st.old is not None:
+                            st.assume(z3.Select(st.old.alloc, r))
+                        for kw in vx.keywords:
+                            fd = e.field_decl(cname, kw.arg)
+                            if fd is not None and isinstance(kw.value, ast.Constant):
+                                fv = e.load_field(st, obj, kw.arg)
+                                st.assume(fv.z == e.coerce(e.const_val(kw.value.value), fv.t).z)
+                        self.use(f"module-level table {an}: entries are immutable objects with the field values written in the source")
+                        return [(st, obj)]
+                return [(st, Exc("KeyError", f"{an}[{idx.conc!r}]", getattr(node, "lineno", 0)))]
         if base.t[0] == "ref" and base.t[1] == "Address" and idx.conc in (0, 1):
             return [(st, e.load_field(st, base, "host" if idx.conc == 0 else "portno", node))]
         raise Unsupported(f"subscript on {tstr(base.t)}", node, e.path)
